@@ -115,6 +115,23 @@ theorem C17_hstack_widths (ms : List Matrix) (ws : List Nat) (n : Nat)
       have a2 := hrest ((hstack ms n)[k]'(by omega)) (List.getElem_mem _)
       omega
 
+/-- composition: the slices of any stacked matrix of the evaluation model (training, or a group
+matrix re-stacked with widened blocks after `evaluate_new_data`) satisfy the specification, with
+the column count being the sum of the blocks' widths -/
+theorem C17_stack_slices (n : Nat) (parts : List (String × Matrix × Option (List String))) :
+    slicesOk (stack n parts).slices (parts.map (·.1)) ((parts.map (fun p => p.2.1.ncols)).sum) = true := by
+  have := C17_slices (parts.map (fun p => (p.1, p.2.1.ncols)))
+  simpa [stack, List.map_map, Function.comp_def] using this
+
+/-- … and it has one row per observation when every block has -/
+theorem C17_stack_rows (n : Nat) (parts : List (String × Matrix × Option (List String)))
+    (h : ∀ p ∈ parts, p.2.1.length = n) : (stack n parts).matrix.length = n := by
+  apply C17_hstack_rows
+  intro m hm
+  simp only [List.mem_map] at hm
+  obtain ⟨p, hp, rfl⟩ := hm
+  exact h p hp
+
 -- non-vacuity
 example : slicesOk (slices [("Intercept", 1), ("f", 2), ("f:x", 3)] 0) ["Intercept", "f", "f:x"] 6 = true := by
   decide
